@@ -32,6 +32,7 @@ type flags struct {
 	nilSliceNull  bool // FormatNilSliceAsNull
 	nilMapNull    bool // FormatNilMapAsNull
 	allowDup      bool // jsontext.AllowDuplicateNames
+	funcMeth      bool // a caller-supplied MarshalFunc for MethStr is in effect (it goes before the type's own method)
 }
 
 // flagsOf evaluates the specs in order (later settings win). DefaultOptionsV1
@@ -483,7 +484,15 @@ func (m *model) encValue(d *tv.Desc, v reflect.Value, fl flags) (string, error) 
 	case d.K == "bool":
 		return strconv.FormatBool(v.Bool()), nil
 	case d.K == "pool:MethStr":
+		if fl.funcMeth {
+			return quote("f:" + v.String()), nil
+		}
 		return quote("m:" + v.String()), nil
+	case d.K == "pool:PlainStr":
+		if fl.funcMeth {
+			return quote("f:" + v.String()), nil
+		}
+		return quote(v.String()), nil
 	case d.K == "pool:MethSlice":
 		return fmt.Sprintf(`{"n":%d}`, v.Len()), nil
 	case d.K == "ptr":
